@@ -178,7 +178,9 @@ def run_job(job, workroot, ctx):
         if "internal compiler error" in err or msg.startswith("the compiler unexpectedly panicked"):
             return {"status": "inconclusive", "why": "rustc ICE (%s)" % stage, "detail": err[-300:]}
         wit_text = compz.read_wit(job["wit"])
-        root = compz.bucket(msg, BUCKETS) or compz.keyword_root_cause(err, wit_text, compz.RUST_KEYWORDS)
+        root = compz.bucket(msg, BUCKETS)
+        if not root and "expected identifier, found" in msg:
+            root = compz.keyword_root_cause(err, wit_text, compz.RUST_KEYWORDS)
         if not root and job["source"] == "random" and code in TEMP_CODES and compz.GENERATOR_TEMPORARIES.search(wit_text):
             root = "maybe-generator-temporary-collision:" + code
         return {"status": "violation", "stage": "rustc", "sig": compz.signature(job, "rust:rustc:", root or "%s:%s" % (code or "error", compz.normalise_rust(msg)), closed=tuple(b for _, b in BUCKETS)),
